@@ -3,10 +3,13 @@ package main
 // Part (b'): conformance subset.  Two real, started MConnections over
 // net.Pipe + real SecretConnections; the send/recv routines, the priority rule,
 // the flush timer and the bufio layering all run for real.  Real goroutines and
-// timers, therefore: progress-based (a scenario ends when a sentinel message
-// sent last on every channel has arrived, or the receiver reported an error),
-// a deadline yields "inconclusive" (never a violation), and a violation
-// candidate is only reported if it reproduces 5 times out of 5.
+// timers, therefore: progress-based (a scenario ends when every accepted
+// message has been delivered - by count -, when the receiver reported an error,
+// or when something arrived that was never handed to Send), and a violation
+// candidate is only reported if it reproduces 5 times out of 5.  A run in which
+// nothing happens any more for mconnIdleDeadline although an accepted message
+// of legitimate size is still undelivered is repeated; 3 such runs out of 3 are
+// the violation "accepted-never-delivered" (anything else: inconclusive).
 
 import (
 	"bytes"
@@ -22,6 +25,7 @@ import (
 	"github.com/spf13/viper"
 
 	crypto "github.com/dappledger/AnnChain/gemmill/go-crypto"
+	wire "github.com/dappledger/AnnChain/gemmill/go-wire"
 	"github.com/dappledger/AnnChain/gemmill/p2p"
 )
 
@@ -34,9 +38,17 @@ type mconnCase struct {
 	Name       string      `json:"name"`
 	Sends      []mconnSend `json:"sends"`
 	Concurrent bool        `json:"concurrent"` // one sending goroutine per channel instead of one in total
+	// NoFollower: nothing is sent after the scenario's own messages (otherwise a
+	// 7-byte message follows on every channel)
+	NoFollower bool `json:"no_follower,omitempty"`
 }
 
 const mconnSentinel = 7
+
+// mconnIdleDeadline: a run is given up when nothing at all has happened (no
+// message delivered, no error, no Send returned) for this long.  The unchanged
+// code needs milliseconds for a scenario.
+const mconnIdleDeadline = 30 * time.Second
 
 var byteType = reflect.TypeOf(byte(0))
 
@@ -48,26 +60,44 @@ func rawMsg(b []byte) interface{} {
 	return v.Interface()
 }
 
+// checkRawMsgEncoding: the sizes of this driver are sizes of the ENCODED
+// message (what MConnection.Send hands to the channel).
+func checkRawMsgEncoding() {
+	for _, n := range msgSizes {
+		b := pattern(n, 3)
+		if enc := wire.BinaryBytes(rawMsg(b)); !bytes.Equal(enc, b) {
+			core.Fatal("harness: wire.BinaryBytes of a %d-byte array has %d bytes", n, len(enc))
+		}
+	}
+}
+
 func mconnScenarios() []mconnCase {
 	var out []mconnCase
+	var legit []int
 	for _, s := range msgSizes {
-		if s > chanRecvMsgCap {
-			continue
+		if s <= chanRecvMsgCap {
+			legit = append(legit, s)
 		}
-		out = append(out, mconnCase{Name: fmt.Sprintf("single-%d", s), Sends: []mconnSend{{0, s}}})
 	}
-	n := len(msgSizes) - 1 // without the oversize one
+	for _, s := range legit {
+		out = append(out, mconnCase{Name: fmt.Sprintf("single-%d", s), Sends: []mconnSend{{0, s}}})
+		// the message is the last one of its channel (and of the connection)
+		out = append(out, mconnCase{Name: fmt.Sprintf("last-%d", s), Sends: []mconnSend{{s % 2, s}}, NoFollower: true})
+	}
+	n := len(legit)
 	for i := 1; i < n; i++ {
-		out = append(out, mconnCase{Name: fmt.Sprintf("pair-%d-%d", msgSizes[i], msgSizes[n-i]), Concurrent: true,
-			Sends: []mconnSend{{0, msgSizes[i]}, {1, msgSizes[n-i]}}})
+		out = append(out, mconnCase{Name: fmt.Sprintf("pair-%d-%d", legit[i], legit[n-i]), Concurrent: true,
+			Sends: []mconnSend{{0, legit[i]}, {1, legit[n-i]}}})
 	}
 	mixA := []mconnSend{{0, 1024}, {1, 2048}, {0, 1025}, {1, 1}, {0, 1}, {1, 1023}, {0, 4096}, {1, 4096}}
 	mixB := []mconnSend{{0, 4096}, {0, 4096}, {0, 4096}, {1, 1}, {1, 1}, {1, 1}, {0, 1}, {1, 4096}}
 	mixC := []mconnSend{{1, 2048}, {1, 2048}, {1, 2048}, {1, 2048}, {0, 1023}, {0, 1025}, {0, 1024}, {0, 2048}}
 	mixD := []mconnSend{{0, 1}, {0, 0}, {0, 1}, {0, 0}, {0, 1024}, {0, 0}}
-	for i, m := range [][]mconnSend{mixA, mixB, mixC} {
-		out = append(out, mconnCase{Name: fmt.Sprintf("mix%c-serial", 'A'+i), Sends: m})
-		out = append(out, mconnCase{Name: fmt.Sprintf("mix%c-concurrent", 'A'+i), Sends: m, Concurrent: true})
+	mixE := []mconnSend{{0, 3072}, {1, 3071}, {0, 3073}, {1, 3072}, {0, 2047}, {1, 2049}, {0, 2048}, {1, 1024}}
+	for i, m := range [][]mconnSend{mixA, mixB, mixC, mixE} {
+		name := []string{"mixA", "mixB", "mixC", "mixE"}[i]
+		out = append(out, mconnCase{Name: name + "-serial", Sends: m})
+		out = append(out, mconnCase{Name: name + "-concurrent", Sends: m, Concurrent: true})
 	}
 	out = append(out, mconnCase{Name: "zero-length-one-channel", Sends: mixD})
 	// (zero-length messages on two busy channels are deliberately absent: whether
@@ -75,7 +105,21 @@ func mconnScenarios() []mconnCase {
 	// before writing it - and thereby drops it, see part (b) - depends on timing,
 	// so such a scenario would make the verdict of this subset vary from run to run)
 	out = append(out, mconnCase{Name: "priority-starvation", Concurrent: true, Sends: []mconnSend{{1, 4096}, {1, 4096}, {1, 4096}, {1, 4096}, {1, 4096}, {1, 4096}, {0, 1}, {0, 1023}}})
-	out = append(out, mconnCase{Name: "boundaries-ch1", Sends: []mconnSend{{1, 1023}, {1, 1024}, {1, 1025}, {1, 2047}, {1, 2048}, {1, 2049}, {1, 4095}, {1, 4096}}})
+	// every non-empty legitimate size in ascending order on one channel, on the other, and on both at once
+	var asc0, asc1, desc1 []mconnSend
+	for i, s := range legit {
+		if s == 0 {
+			continue
+		}
+		asc0 = append(asc0, mconnSend{0, s})
+		asc1 = append(asc1, mconnSend{1, s})
+		if r := legit[len(legit)-1-i]; r != 0 {
+			desc1 = append(desc1, mconnSend{1, r})
+		}
+	}
+	out = append(out, mconnCase{Name: "boundaries-ch0", Sends: asc0})
+	out = append(out, mconnCase{Name: "boundaries-ch1", Sends: asc1, NoFollower: true})
+	out = append(out, mconnCase{Name: "boundaries-both", Concurrent: true, Sends: append(append([]mconnSend(nil), asc0...), desc1...)})
 	out = append(out, mconnCase{Name: "oversize-first", Sends: []mconnSend{{0, 4097}}})
 	out = append(out, mconnCase{Name: "oversize-after-legit", Sends: []mconnSend{{0, 1024}, {0, 4096}, {0, 4097}}})
 	out = append(out, mconnCase{Name: "oversize-other-channel-busy", Concurrent: true, Sends: []mconnSend{{1, 1024}, {0, 4097}}})
@@ -85,9 +129,10 @@ func mconnScenarios() []mconnCase {
 }
 
 type mconnOutcome struct {
-	verdict string // ok | inconclusive | <violation kind>
+	verdict string // ok | inconclusive | timeout | <violation kind>
 	detail  string
 	size    string
+	shape   string
 }
 
 var mconnChIDs = []byte{0x20, 0x21}
@@ -99,8 +144,11 @@ func mconnDescs() []*p2p.ChannelDescriptor {
 	}
 }
 
-// mconnRun executes one scenario once.
-func mconnRun(mc mconnCase, deadline time.Duration) (o mconnOutcome) {
+// mconnRun executes one scenario once.  The run ends when every Send has
+// returned and every accepted message has been delivered (by count), when the
+// receiver reported an error, when something was delivered that was never
+// handed to Send on that channel, or when nothing has happened for idle.
+func mconnRun(mc mconnCase, idle time.Duration, alive func()) (o mconnOutcome) {
 	start := time.Now()
 	inconclusive := func(why string) mconnOutcome {
 		return mconnOutcome{verdict: "inconclusive", detail: fmt.Sprintf("%s after %.1fs", why, time.Since(start).Seconds())}
@@ -116,12 +164,13 @@ func mconnRun(mc mconnCase, deadline time.Duration) (o mconnOutcome) {
 		wg.Add(1)
 		go func(i int, c net.Conn) {
 			defer wg.Done()
-			c.SetDeadline(time.Now().Add(deadline))
+			c.SetDeadline(time.Now().Add(idle))
 			sc[i], herr[i] = p2p.MakeSecretConnection(c, keys[i])
 			c.SetDeadline(time.Time{})
 		}(i, c)
 	}
 	wg.Wait()
+	alive()
 	if herr[0] != nil || herr[1] != nil {
 		return inconclusive(fmt.Sprintf("handshake failed (%v / %v)", herr[0], herr[1]))
 	}
@@ -129,9 +178,12 @@ func mconnRun(mc mconnCase, deadline time.Duration) (o mconnOutcome) {
 	conf := viper.New()
 	p2p.NewSwitch(conf) // only to install the package's configuration defaults (send/recv rate)
 
-	var mu sync.Mutex
+	var mu sync.Mutex // guards everything below up to "unknown"
 	var received [2][][]byte
+	var offered, accepted [2][][]byte // handed to Send / accepted by Send, per channel, in order
+	var decided [2]int                // number of Sends that have returned, per channel
 	var recvErr interface{}
+	unknown := false // something was delivered that was never handed to Send on that channel
 	event := make(chan struct{}, 1024)
 	notify := func() {
 		select {
@@ -143,7 +195,20 @@ func mconnRun(mc mconnCase, deadline time.Duration) (o mconnOutcome) {
 		mu.Lock()
 		idx := int(chID) - int(mconnChIDs[0])
 		if idx >= 0 && idx < 2 {
-			received[idx] = append(received[idx], append([]byte(nil), msg...)) // copy at the callback
+			m := append([]byte(nil), msg...) // copy at the callback
+			received[idx] = append(received[idx], m)
+			known := false
+			for _, o := range offered[idx] {
+				if bytes.Equal(o, m) {
+					known = true
+					break
+				}
+			}
+			if !known {
+				unknown = true
+			}
+		} else {
+			unknown = true
 		}
 		mu.Unlock()
 		notify()
@@ -164,18 +229,20 @@ func mconnRun(mc mconnCase, deadline time.Duration) (o mconnOutcome) {
 	defer sender.Stop()
 	defer receiver.Stop()
 
-	// what was accepted, per channel, in order
-	var accepted [2][][]byte
-	var amu sync.Mutex
 	seq := [2]int{}
 	sendOne := func(ch, size int, salt uint64) {
 		body := pattern(size, salt)
+		mu.Lock()
+		offered[ch] = append(offered[ch], body)
+		mu.Unlock()
 		ok := sender.Send(mconnChIDs[ch], rawMsg(body))
+		mu.Lock()
+		decided[ch]++
 		if ok {
-			amu.Lock()
 			accepted[ch] = append(accepted[ch], body)
-			amu.Unlock()
 		}
+		mu.Unlock()
+		notify()
 	}
 	var swg sync.WaitGroup
 	if mc.Concurrent {
@@ -190,7 +257,9 @@ func mconnRun(mc mconnCase, deadline time.Duration) (o mconnOutcome) {
 						k++
 					}
 				}
-				sendOne(ch, mconnSentinel, uint64(9000+ch))
+				if !mc.NoFollower {
+					sendOne(ch, mconnSentinel, uint64(9000+ch))
+				}
 			}(ch)
 		}
 	} else {
@@ -201,7 +270,7 @@ func mconnRun(mc mconnCase, deadline time.Duration) (o mconnOutcome) {
 				sendOne(s.Ch, s.Size, uint64(5000+s.Ch*100+seq[s.Ch]))
 				seq[s.Ch]++
 			}
-			for ch := 0; ch < 2; ch++ {
+			for ch := 0; ch < 2 && !mc.NoFollower; ch++ {
 				sendOne(ch, mconnSentinel, uint64(9000+ch))
 			}
 		}()
@@ -209,75 +278,100 @@ func mconnRun(mc mconnCase, deadline time.Duration) (o mconnOutcome) {
 	sendersDone := make(chan struct{})
 	go func() { swg.Wait(); close(sendersDone) }()
 
-	sentinel := [2][]byte{pattern(mconnSentinel, 9000), pattern(mconnSentinel, 9001)}
-	timeout := time.After(deadline)
-	finished := false
-	for !finished {
+	timedOut := false
+	timer := time.NewTimer(idle)
+	defer timer.Stop()
+	for finished := false; !finished; {
 		select {
 		case <-event:
 		case <-sendersDone:
 			sendersDone = nil
-		case <-timeout:
-			return inconclusive("deadline")
+		case <-timer.C:
+			timedOut = true
 		}
-		mu.Lock()
-		got := 0
-		for ch := 0; ch < 2; ch++ {
-			if n := len(received[ch]); n > 0 && bytes.Equal(received[ch][n-1], sentinel[ch]) {
-				got++
+		if timedOut {
+			break
+		}
+		alive()
+		if !timer.Stop() {
+			select {
+			case <-timer.C:
+			default:
 			}
 		}
-		if recvErr != nil || got == 2 {
-			finished = sendersDone == nil || recvErr != nil
+		timer.Reset(idle)
+		mu.Lock()
+		all := sendersDone == nil
+		for ch := 0; ch < 2 && all; ch++ {
+			all = len(received[ch]) >= len(accepted[ch])
 		}
+		finished = recvErr != nil || unknown || all
 		mu.Unlock()
 	}
 	if sendersDone != nil {
-		// receiver failed: the senders may be blocked in Send (queue full, 10 s timeout); do not wait for them
+		// the senders may be blocked in Send (queue full, 10 s timeout); do not wait for them
 		sender.Stop()
 	}
 	mu.Lock()
 	defer mu.Unlock()
-	amu.Lock()
-	defer amu.Unlock()
 
 	// oracle: per channel, what arrived is a prefix of what was accepted, each
 	// message byte-equal; an oversize message never arrives, its channel's
 	// traffic ends there with an error; without error everything arrives.
+	// (A message whose Send has not returned yet - at most one per sending
+	// goroutine - may already have arrived: it counts as accepted here.)
 	for ch := 0; ch < 2; ch++ {
+		expect := append(append([][]byte(nil), accepted[ch]...), offered[ch][decided[ch]:]...)
 		for i, m := range received[ch] {
-			if i >= len(accepted[ch]) {
-				return mconnOutcome{verdict: "extra-message", size: sizeClass(len(m)), detail: fmt.Sprintf("channel %d delivered %d messages, only %d were accepted", ch, len(received[ch]), len(accepted[ch]))}
+			if i >= len(expect) {
+				return mconnOutcome{verdict: "extra-message", size: sizeClass(len(m)), shape: shapeClass(len(m)), detail: fmt.Sprintf("channel %d delivered %d messages, only %d were accepted", ch, len(received[ch]), len(expect))}
 			}
-			want := accepted[ch][i]
+			want := expect[i]
 			if len(want) > chanRecvMsgCap {
-				return mconnOutcome{verdict: "oversize-delivered", size: "oversize", detail: fmt.Sprintf("channel %d message #%d: a %d-byte message was delivered (%d bytes) through capacity %d", ch, i, len(want), len(m), chanRecvMsgCap)}
+				return mconnOutcome{verdict: "oversize-delivered", size: "oversize", shape: shapeClass(len(want)), detail: fmt.Sprintf("channel %d message #%d: a %d-byte message was delivered (%d bytes) through capacity %d", ch, i, len(want), len(m), chanRecvMsgCap)}
 			}
 			if !bytes.Equal(m, want) {
 				kind := "corrupted"
 				if len(m) < len(want) && bytes.HasPrefix(want, m) {
 					kind = "truncated"
-				} else if i+1 < len(accepted[ch]) && bytes.Equal(m, accepted[ch][i+1]) {
+				} else if i+1 < len(expect) && bytes.Equal(m, expect[i+1]) {
 					kind = "message-lost"
 				}
-				return mconnOutcome{verdict: kind, size: sizeClass(len(want)), detail: fmt.Sprintf("channel %d message #%d: delivered %d bytes, accepted message has %d bytes", ch, i, len(m), len(want))}
+				return mconnOutcome{verdict: kind, size: sizeClass(len(want)), shape: shapeClass(len(want)), detail: fmt.Sprintf("channel %d message #%d: delivered %d bytes, accepted message has %d encoded bytes", ch, i, len(m), len(want))}
 			}
 		}
 	}
 	if recvErr != nil {
-		// legitimate only if some accepted-but-undelivered message is oversize
+		// legitimate only if some offered-but-undelivered message is oversize
 		for ch := 0; ch < 2; ch++ {
-			for i := len(received[ch]); i < len(accepted[ch]); i++ {
-				if len(accepted[ch][i]) > chanRecvMsgCap {
+			for i := len(received[ch]); i < len(offered[ch]); i++ {
+				if len(offered[ch][i]) > chanRecvMsgCap {
 					return mconnOutcome{verdict: "ok", detail: "overflow error"}
 				}
 			}
 		}
 		return mconnOutcome{verdict: "error-on-legit-message", size: "any", detail: fmt.Sprintf("receiver stopped with %v although no oversize message was outstanding", core.FirstLine(recvErr))}
 	}
+	if unknown {
+		return inconclusive("harness: a delivered message was flagged as never offered, yet everything delivered equals the accepted message at its place")
+	}
+	if timedOut {
+		// the oldest accepted message that has not been delivered
+		for ch := 0; ch < 2; ch++ {
+			if i := len(received[ch]); i < len(accepted[ch]) {
+				m := accepted[ch][i]
+				if len(m) > chanRecvMsgCap {
+					return inconclusive("an oversize message is outstanding and the receiver has not reported an error")
+				}
+				return mconnOutcome{verdict: "timeout", size: sizeClass(len(m)), shape: shapeClass(len(m)),
+					detail: fmt.Sprintf("channel %d: message #%d (%d encoded bytes) was accepted by Send and has not been delivered; %d of %d accepted messages of the channel were delivered, then nothing happened for %v (no delivery, no error)", ch, i, len(m), len(received[ch]), len(accepted[ch]), idle)}
+			}
+		}
+		return inconclusive("idle deadline with nothing outstanding")
+	}
 	for ch := 0; ch < 2; ch++ {
 		if len(received[ch]) != len(accepted[ch]) {
-			return mconnOutcome{verdict: "message-lost", size: "any", detail: fmt.Sprintf("channel %d: %d accepted, %d delivered although the sentinel arrived", ch, len(accepted[ch]), len(received[ch]))}
+			return mconnOutcome{verdict: "message-lost", size: "any", detail: fmt.Sprintf("channel %d: %d accepted, %d delivered", ch, len(accepted[ch]), len(received[ch]))}
 		}
 	}
 	return mconnOutcome{verdict: "ok"}
@@ -286,8 +380,10 @@ func mconnRun(mc mconnCase, deadline time.Duration) (o mconnOutcome) {
 func (c *ctx) runMConnCase(k kase, replay bool) (verdict string) {
 	atomic.AddInt64(&c.evals, 1)
 	mc := *k.MConn
+	fl := c.begin(k, map[string]string{"part": "mconn"})
+	defer c.end(fl)
 	var o mconnOutcome
-	p, v, st := core.Try(func() { o = mconnRun(mc, 30*time.Second) })
+	p, v, st := core.Try(func() { o = mconnRun(mc, mconnIdleDeadline, fl.tick) })
 	if p {
 		c.report(map[string]string{"part": "mconn", "kind": "panic", "site": core.PanicSite(st)}, k, "panic in harness goroutine: "+core.FirstLine(v))
 		return "panic"
@@ -295,15 +391,28 @@ func (c *ctx) runMConnCase(k kase, replay bool) (verdict string) {
 	if o.verdict == "ok" || o.verdict == "inconclusive" {
 		return o.verdict
 	}
-	// real goroutines: report only what reproduces 5 times out of 5
-	for i := 0; i < 4; i++ {
+	// real goroutines: report only what reproduces every time (an idle deadline: 3 of 3; anything else: 5 of 5)
+	times := 5
+	if o.verdict == "timeout" {
+		times = 3
+	}
+	for i := 1; i < times; i++ {
+		fl.tick()
 		var o2 mconnOutcome
-		if p, _, _ := core.Try(func() { o2 = mconnRun(mc, 30*time.Second) }); p || o2.verdict != o.verdict {
+		if p, _, _ := core.Try(func() { o2 = mconnRun(mc, mconnIdleDeadline, fl.tick) }); p || o2.verdict != o.verdict || o2.size != o.size || o2.shape != o.shape {
 			return "inconclusive"
 		}
 	}
-	c.report(map[string]string{"part": "mconn", "kind": o.verdict, "size": o.size}, k, fmt.Sprintf("scenario %s (reproduced 5/5): %s", mc.Name, o.detail))
-	return o.verdict
+	kind := o.verdict
+	if kind == "timeout" {
+		kind = "accepted-never-delivered"
+	}
+	sig := map[string]string{"part": "mconn", "kind": kind, "size": o.size}
+	if o.shape != "" {
+		sig["shape"] = o.shape
+	}
+	c.report(sig, k, fmt.Sprintf("scenario %s (reproduced %d/%d): %s", mc.Name, times, times, o.detail))
+	return kind
 }
 
 func (c *ctx) runMConnSubset(skip bool) map[string]interface{} {
